@@ -237,6 +237,8 @@ class CdfInterp(object):
         if r is not None:
           return r
         continue
+      if isinstance(st, ast.Pass):
+        continue
       if isinstance(st, ast.Raise):
         return 'raise'
       if isinstance(st, ast.Return):
